@@ -213,7 +213,11 @@ def run_case(ctx, rng, fmt, data: bytes, cfg, kind):
       ctx.violation(f"does-not-return:{fmt}-reader", f"{what}: the reader did not return within the watchdog", payload)
       return
     except Exception as e:  # pylint: disable=broad-except
-      ctx.violation(f"{fmt}-reader-raises:{exc_site(e)}", f"{what}: reader raised {type(e).__name__}: {e}", payload)
+      fid = None
+      if fmt == "vtt" and isinstance(e, TypeError) and exc_site(e).endswith("model.push_child") and \
+          "Children of span must be span or br instances" in str(e) and b"<ruby" in data.lower():
+        fid = "D-VTT-RUBY-IN-SPAN"
+      ctx.violation(f"{fmt}-reader-raises:{exc_site(e)}", f"{what}: reader raised {type(e).__name__}: {e}", payload, finding=fid)
       return
     if doc is None:
       ctx.count("reader:returned-none")
